@@ -110,6 +110,11 @@ class Fresh:
                 return False
         return True
 
+    def _returns_part_of_self(self, fid) -> bool:
+        cmi, cfn, cci = self.eff.funcs[fid]
+        rets = [r.value for r in walk_no_nested(cfn) if isinstance(r, ast.Return) and r.value is not None]
+        return bool(rets) and all(isinstance(r, ast.Attribute) and isinstance(_root(r), ast.Name) and _root(r).id == "self" for r in rets)
+
     def fresh(self, e: ast.AST, fn, mi: ModuleInfo, ci: Optional[ClassInfo], stack=(), depth=6) -> Tuple[bool, str]:
         if depth <= 0:
             return False, "too deep"
@@ -142,6 +147,13 @@ class Fresh:
             callees = [c for c in self.eff.resolve_call(e, mi, ci, fn) if c in self.eff.funcs]
             if self.prog.resolve_class(e.func, mi) is not None:
                 return True, "constructor call"
+            # an accessor (`x.list()` returning `self.args_list`) hands out a part of its receiver: as fresh as the receiver
+            if isinstance(e.func, ast.Attribute) and not e.args and not e.keywords:
+                cands = callees or [fid for fid, (cmi, cfn, cci) in self.eff.funcs.items() if cci is not None and cfn.name == e.func.attr
+                                    and len(cfn.args.args) == 1]
+                if cands and all(self._returns_part_of_self(c) for c in cands):
+                    ok, why = self.fresh(_root(e.func.value), fn, mi, ci, stack, depth - 1)
+                    return ok, (f"part of {unparse(e.func.value)[:30]} ({why})")
             if not callees:
                 return False, f"result of unresolved call {name or unparse(e.func)[:30]}"
             for c in callees:
@@ -198,6 +210,362 @@ class Fresh:
         if isinstance(e, ast.Attribute):
             return False, f"attribute {unparse(e)[:40]}"
         return False, type(e).__name__
+
+
+# ------------------------------------------------------------------------------------------------------------------
+# Ownership along an access path.  `fresh` answers "is this object new"; a modification of `x.a.b[0]` needs more: the
+# object *reached* through .a, .b and [0] has to belong to this computation as well - a shallow copy shares everything
+# below its first level with the original.  `owned_path(e, steps)` follows the access path backwards through bindings,
+# re-bound attributes (`m2 = copy.copy(m); m2.args = <new list>`), local helpers, accessors and constructors.
+ELEM = ("elem",)
+DEEP = ("deep",)          # any number of further steps: only a deep copy / a freshly parsed tree / all-new literals qualify
+SHALLOW_COPY_CALLS = {"copy.copy", "copy", "list", "tuple", "sorted", "reversed", "set", "frozenset", "dict"}
+SHALLOW_COPY_METHODS = {"copy", "values", "asList", "as_list"}
+ELEMENT_METHODS = {"get", "pop", "popitem", "setdefault"}
+PARSE_CALLS = {"parseString", "parse_string", "parseFile", "parse_file"}
+
+
+class Frame:
+    """One activation in which names are read: the function, and what its parameters (or comprehension variables)
+    stand for as (expression, steps to append, frame of that expression)."""
+    __slots__ = ("fn", "mi", "ci", "env", "outer")
+
+    def __init__(self, fn, mi, ci, env=None, outer=None):
+        self.fn, self.mi, self.ci, self.env, self.outer = fn, mi, ci, dict(env or {}), outer
+
+    def child(self, extra):
+        f = Frame(self.fn, self.mi, self.ci, self.env, self.outer)
+        f.env.update(extra)
+        return f
+
+
+def _steps_text(steps) -> str:
+    return "".join("." + s[1] if s[0] == "attr" else ("[*]" if s == ELEM else ".**") for s in steps) or "(itself)"
+
+
+def _rest(steps):
+    """The steps that remain after one step has been taken (a DEEP marker is never used up)."""
+    return steps if steps and steps[0] == DEEP else steps[1:]
+
+
+def _attr_stores(fn, name: str, attr: str):
+    return [st for st in walk_no_nested(fn) if isinstance(st, ast.Assign) and len(st.targets) == 1
+            and isinstance(st.targets[0], ast.Attribute) and isinstance(st.targets[0].value, ast.Name)
+            and st.targets[0].value.id == name and st.targets[0].attr == attr]
+
+
+def _element_feeds(fn, name: str):
+    """(value expression, 'element' | 'elements') for everything put into the local container `name` inside fn."""
+    out = []
+    for n in walk_no_nested(fn):
+        if isinstance(n, ast.Assign):
+            for t in n.targets:
+                if isinstance(t, ast.Subscript) and isinstance(t.value, ast.Name) and t.value.id == name and not isinstance(t.slice, ast.Slice):
+                    out.append((n.value, "element"))
+        elif isinstance(n, ast.Call) and isinstance(n.func, ast.Attribute) and isinstance(n.func.value, ast.Name) and n.func.value.id == name:
+            if n.func.attr in ("append", "add") and n.args:
+                out.append((n.args[0], "element"))
+            elif n.func.attr in ("insert", "setdefault") and len(n.args) == 2:
+                out.append((n.args[1], "element"))
+            elif n.func.attr in ("extend", "update") and n.args:
+                out.append((n.args[0], "elements"))
+    return out
+
+
+def _owned_path(self, e: ast.AST, steps, fr: Frame, depth: int = 40, stack=()) -> Tuple[bool, str]:
+    """The object that `e` followed by `steps` denotes was created by the computation in view (so nobody else holds it)."""
+    if depth <= 0:
+        return False, "access path too long to follow"
+    steps = list(steps)
+    rec = lambda x, st, f=fr: _owned_path(self, x, st, f, depth - 1, stack)          # noqa: E731
+    if isinstance(e, ast.Attribute):
+        return rec(e.value, [("attr", e.attr)] + steps)
+    if isinstance(e, ast.Subscript):
+        if isinstance(e.slice, ast.Slice):
+            return (True, "slice") if not steps else rec(e.value, steps)
+        return rec(e.value, [ELEM] + steps)
+    if isinstance(e, ast.Starred):
+        return rec(e.value, steps)
+    if isinstance(e, (ast.Constant, ast.JoinedStr, ast.Compare, ast.UnaryOp, ast.Lambda)):
+        return True, "immutable value"
+    if isinstance(e, ast.IfExp):
+        a, b = rec(e.body, steps), rec(e.orelse, steps)
+        return (a[0] and b[0]), (a[1] if not a[0] else b[1])
+    if isinstance(e, ast.BoolOp):
+        for v in e.values:
+            ok, why = rec(v, steps)
+            if not ok:
+                return False, why
+        return True, "every operand"
+    if isinstance(e, ast.BinOp):
+        if not steps:
+            return True, "new value"
+        if isinstance(e.op, ast.Add):
+            a, b = rec(e.left, steps), rec(e.right, steps)
+            return (a[0] and b[0]), (a[1] if not a[0] else b[1])
+        return True, "arithmetic"
+    if isinstance(e, (ast.List, ast.Tuple, ast.Set)):
+        if not steps:
+            return True, "literal"
+        if steps[0] not in (ELEM, DEEP):
+            return False, f"{_steps_text(steps[:1])} of a literal sequence"
+        for x in e.elts:
+            ok, why = rec(x, _rest(steps))
+            if not ok:
+                return False, f"element {unparse(x)[:30]} ({why})"
+        return True, "every element is new"
+    if isinstance(e, ast.Dict):
+        if not steps:
+            return True, "literal"
+        if steps[0] not in (ELEM, DEEP):
+            return False, f"{_steps_text(steps[:1])} of a dict literal"
+        for x in e.values:
+            ok, why = rec(x, _rest(steps))
+            if not ok:
+                return False, f"value {unparse(x)[:30]} ({why})"
+        return True, "every value is new"
+    if isinstance(e, (ast.ListComp, ast.SetComp, ast.GeneratorExp, ast.DictComp)):
+        if not steps:
+            return True, "comprehension"
+        if steps[0] not in (ELEM, DEEP):
+            return False, f"{_steps_text(steps[:1])} of a comprehension"
+        extra = {}
+        f2 = fr
+        for g in e.generators:
+            if isinstance(g.target, ast.Name):
+                extra[g.target.id] = (g.iter, [ELEM], f2)
+                f2 = fr.child(extra)
+        elt = e.value if isinstance(e, ast.DictComp) else e.elt
+        ok, why = _owned_path(self, elt, _rest(steps), f2, depth - 1, stack)
+        return ok, (f"element {unparse(elt)[:30]} ({why})" if not ok else "every element is new")
+    if isinstance(e, ast.Name):
+        return _owned_name(self, e, steps, fr, depth, stack)
+    if isinstance(e, ast.Call):
+        return _owned_call(self, e, steps, fr, depth, stack)
+    if not steps:
+        return self.fresh(e, fr.fn, fr.mi, fr.ci)
+    return False, f"{type(e).__name__} {unparse(e)[:30]}"
+
+
+def _owned_name(self, e: ast.Name, steps, fr: Frame, depth, stack) -> Tuple[bool, str]:
+    rec = lambda x, st, f=fr: _owned_path(self, x, st, f, depth - 1, stack)          # noqa: E731
+    if e.id in fr.env:
+        x, pre, f2 = fr.env[e.id]
+        ok, why = _owned_path(self, x, list(pre) + steps, f2, depth - 1, stack)
+        return ok, (f"{e.id} stands for {unparse(x)[:30]}{_steps_text(pre) if pre else ''} ({why})" if not ok else why)
+    fn = fr.fn
+    inside = any(x is e for x in ast.walk(fn))
+    if not inside:
+        return False, f"name {e.id} read outside the function in view"
+    binds, killed = reaching_defs(fn, e.id, e)
+    if not killed and e.id in func_params(fn):
+        return False, f"parameter {e.id}"
+    if not binds:
+        if fr.outer is not None and e.id not in local_assignments(fn):
+            # a variable of the enclosing function, read by a nested helper: every binding it has there
+            o = fr.outer
+            if e.id in o.env:
+                x, pre, f2 = o.env[e.id]
+                return _owned_path(self, x, list(pre) + steps, f2, depth - 1, stack)
+            if e.id in func_params(o.fn):
+                return False, f"parameter {e.id} of the enclosing function"
+            vals = [st.value for st in walk_no_nested(o.fn) if isinstance(st, ast.Assign) and len(st.targets) == 1
+                    and isinstance(st.targets[0], ast.Name) and st.targets[0].id == e.id]
+            if not vals:
+                return False, f"free name {e.id}"
+            for v in vals:
+                ok, why = _owned_path(self, v, steps, o, depth - 1, stack)
+                if not ok:
+                    return False, f"{e.id} = {unparse(v)[:40]} ({why})"
+            return True, "variable of the enclosing function bound to new values only"
+        return False, f"free name {e.id}"
+    # `x = copy.copy(y); x.a = <new>`: the first step is answered by the store when one certainly happened before this read
+    if steps and steps[0][0] == "attr":
+        stores = [st for st in _attr_stores(fn, e.id, steps[0][1])
+                  if reaching_defs(fn, e.id, st.targets[0].value)[0] == binds]
+        certain = [st for st in stores if parent(st) is fn and st.lineno < e.lineno]
+        if certain:
+            for st in stores:
+                ok, why = rec(st.value, steps[1:])
+                if not ok:
+                    return False, f"{e.id}.{steps[0][1]} = {unparse(st.value)[:40]} ({why})"
+            return True, f"{e.id}.{steps[0][1]} was bound to a new value"
+    for b in binds:
+        if isinstance(b, ast.AnnAssign):
+            if b.value is None:
+                continue
+            ok, why = rec(b.value, steps)
+            if not ok:
+                return False, f"{e.id} = {unparse(b.value)[:40]} ({why})"
+        elif isinstance(b, ast.Assign):
+            if not (len(b.targets) == 1 and isinstance(b.targets[0], ast.Name)):
+                return False, f"{e.id} bound by unpacking"
+            ok, why = rec(b.value, steps)
+            if not ok:
+                return False, f"{e.id} = {unparse(b.value)[:40]} ({why})"
+        elif isinstance(b, ast.AugAssign):
+            if steps and steps[0] in (ELEM, DEEP):
+                ok, why = rec(b.value, steps)
+                if not ok:
+                    return False, f"{e.id} += {unparse(b.value)[:40]} ({why})"
+        elif isinstance(b, (ast.For, ast.comprehension)):
+            if isinstance(b.target, ast.Name):
+                ok, why = rec(b.iter, [ELEM] + steps)
+                if ok:
+                    continue
+            if not steps:
+                ok2, why2 = self.fresh(e, fn, fr.mi, fr.ci)       # walkers over own arguments, literal tables
+                if ok2:
+                    continue
+            if not isinstance(b.target, ast.Name):
+                return False, f"{e.id} bound by unpacking the elements of {unparse(b.iter)[:40]}"
+            return False, f"{e.id} iterates over {unparse(b.iter)[:40]} ({why})"
+        else:
+            return False, f"{e.id} bound by {type(b).__name__}"
+    # a container built here holds what this function puts into it
+    if steps and steps[0] in (ELEM, DEEP):
+        for v, kind in _element_feeds(fn, e.id):
+            ok, why = rec(v, _rest(steps) if kind == "element" else steps)
+            if not ok:
+                return False, f"{e.id} receives {unparse(v)[:40]} ({why})"
+    return True, "local bound to new values only"
+
+
+def _callee_frames(self, e: ast.Call, fr: Frame):
+    """Frames in which the callees of `e` run (parameters standing for the arguments), or None when a callee is unknown."""
+    from .prog import bind_call
+    out = []
+    f = e.func
+    if isinstance(f, ast.Name):
+        scope, o = fr.fn, fr
+        while scope is not None:
+            local = [g for g in ast.walk(scope) if isinstance(g, ast.FunctionDef) and g is not scope and g.name == f.id]
+            if local:
+                g = local[0]
+                try:
+                    b = bind_call(g, e, drop_self=False)
+                except AnalysisError:
+                    return None
+                env = {p: (a, [], fr) for p, a in b.items() if not p.startswith("<")}
+                holder = o if scope is o.fn else fr
+                return [(g, Frame(g, fr.mi, fr.ci, env, outer=Frame(scope, holder.mi, holder.ci, holder.env, holder.outer)))]
+            o = o.outer if o is not None else None
+            scope = o.fn if o is not None else None
+    callees = [c for c in self.eff.resolve_call(e, fr.mi, fr.ci, fr.fn) if c in self.eff.funcs]
+    if not callees:
+        return None
+    for c in callees:
+        cmi, cfn, cci = self.eff.funcs[c]
+        static = any(unparse(d) in ("staticmethod",) for d in cfn.decorator_list)
+        drop = cci is not None and not static
+        try:
+            b = bind_call(cfn, e, drop_self=drop)
+        except AnalysisError:
+            return None
+        env = {p: (a, [], fr) for p, a in b.items() if not p.startswith("<")}
+        if drop and isinstance(f, ast.Attribute) and cfn.args.args:
+            recv = f.value
+            if not (isinstance(recv, ast.Call) and isinstance(recv.func, ast.Name) and recv.func.id == "super"):
+                env[cfn.args.args[0].arg] = (recv, [], fr)
+        out.append((cfn, Frame(cfn, cmi, cci, env)))
+    return out
+
+
+def _owned_call(self, e: ast.Call, steps, fr: Frame, depth, stack) -> Tuple[bool, str]:
+    from .prog import bind_call
+    rec = lambda x, st, f=fr: _owned_path(self, x, st, f, depth - 1, stack)          # noqa: E731
+    name = dotted(e.func) or ""
+    last = name.split(".")[-1]
+    if last == "deepcopy":
+        return True, "deep copy"
+    if last in PARSE_CALLS:
+        return True, "freshly parsed tree"
+    if not steps:
+        ok, why = self.fresh(e, fr.fn, fr.mi, fr.ci)
+        if ok:
+            return ok, why
+    elif name in SHALLOW_COPY_CALLS and len(e.args) == 1 and self.prog.resolve_class(e.func, fr.mi) is None:
+        ok, why = rec(e.args[0], steps)
+        return ok, (f"{name}() copies one level only: {_steps_text(steps)} is shared with {unparse(e.args[0])[:30]} ({why})" if not ok else why)
+    elif name in ("enumerate", "zip", "map", "filter", "range", "len", "str", "int", "float", "bool", "repr"):
+        return (False, f"{_steps_text(steps)} of {name}(...)") if name in ("enumerate", "zip", "map", "filter") else (True, "immutable value")
+    elif isinstance(e.func, ast.Attribute) and e.func.attr in SHALLOW_COPY_METHODS and not e.args:
+        callees = [c for c in self.eff.resolve_call(e, fr.mi, fr.ci, fr.fn) if c in self.eff.funcs]
+        if not callees:
+            ok, why = rec(e.func.value, steps)
+            return ok, (f".{e.func.attr}() copies one level only ({why})" if not ok else why)
+    elif isinstance(e.func, ast.Attribute) and e.func.attr in ELEMENT_METHODS and self.fresh(e.func.value, fr.fn, fr.mi, fr.ci)[0]:
+        ok, why = rec(e.func.value, [ELEM] + steps)
+        if e.func.attr == "setdefault" and len(e.args) == 2 and ok:
+            ok, why = rec(e.args[1], steps)
+        return ok, why
+    elif isinstance(e.func, ast.Attribute) and e.func.attr in FRESH_METHODS and e.func.attr not in ("get", "copy", "values", "items", "asList", "as_list"):
+        return True, "text"
+    cls = self.prog.resolve_class(e.func, fr.mi)
+    if cls is not None:
+        if not steps:
+            return True, "constructor call"
+        m = self.prog.find_method(cls, "__init__")
+        if m is None:
+            return False, f"{cls.qual} has no constructor in view"
+        init = m[1]
+        try:
+            b = bind_call(init, e, drop_self=True)
+        except AnalysisError as ex:
+            return False, str(ex)
+        env = {p: (a, [], fr) for p, a in b.items() if not p.startswith("<")}
+        a_ = init.args
+        pos = [x.arg for x in a_.posonlyargs + a_.args]
+        for p_, d in list(zip(pos[len(pos) - len(a_.defaults):], a_.defaults)) + [(k.arg, d) for k, d in zip(a_.kwonlyargs, a_.kw_defaults) if d is not None]:
+            if p_ not in env and isinstance(d, ast.Constant):
+                env[p_] = (d, [], fr)
+        f2 = Frame(init, m[0].mod, m[0], env)
+        if steps[0] == DEEP:
+            for p_, (a, _, _) in env.items():
+                ok, why = rec(a, steps)
+                if not ok:
+                    return False, f"{cls.name}({p_}={unparse(a)[:30]}) ({why})"
+            return True, "constructed from new values only"
+        if steps[0][0] != "attr":
+            return False, f"element of a {cls.name}"
+        attr = steps[0][1]
+        vals = [st.value for st in walk_no_nested(init) if isinstance(st, (ast.Assign, ast.AnnAssign)) and st.value is not None
+                and any(isinstance(t, ast.Attribute) and isinstance(t.value, ast.Name) and t.value.id == pos[0] and t.attr == attr
+                        for t in (st.targets if isinstance(st, ast.Assign) else [st.target]))]
+        if not vals:
+            return False, f"{cls.name}.__init__ does not bind .{attr}"
+        key = ("init", id(e), attr, tuple(steps))          # the same call expression met again: recursion
+        if key in stack:
+            return True, "recursive"
+        for v in vals:
+            ok, why = _owned_path(self, v, steps[1:], f2, depth - 1, stack + (key,))
+            if not ok:
+                return False, f"{cls.name}.{attr} = {unparse(v)[:30]} ({why})"
+        return True, f"{cls.name}.{attr} holds a new value"
+    frames = _callee_frames(self, e, fr)
+    if frames is None:
+        return False, f"result of unresolved call {name or unparse(e.func)[:30]}"
+    for g, f2 in frames:
+        key = ("call", id(e), id(g), tuple(steps))            # the same call expression met again: recursion
+        if key in stack:
+            continue
+        outs = [(n.value, "ret") for n in walk_no_nested(g) if isinstance(n, ast.Return) and n.value is not None]
+        ys = [n for n in walk_no_nested(g) if isinstance(n, (ast.Yield, ast.YieldFrom))]
+        if ys:
+            if not steps:
+                continue            # a generator object is new
+            if steps[0] not in (ELEM, DEEP):
+                return False, f"{_steps_text(steps[:1])} of a generator"
+            outs = [(y.value, "yield" if isinstance(y, ast.Yield) else "from") for y in ys if y.value is not None]
+        for v, kind in outs:
+            st = steps if kind in ("ret", "from") else _rest(steps)
+            ok, why = _owned_path(self, v, st, f2, depth - 1, stack + (key,))
+            if not ok:
+                return False, f"{g.name}() hands out {unparse(v)[:30]} ({why})"
+    return True, "every callee hands out a new value"
+
+
+Fresh.owned_path = lambda self, e, steps, fr, depth=40: _owned_path(self, e, steps, fr, depth)
 
 
 def _walker_arguments(fn, mi, it: ast.AST) -> Optional[List[ast.AST]]:
@@ -387,10 +755,10 @@ def rule_mutate_only_fresh(ctx, rep: Report, rid: str, package: str, exempt: Dic
             if ekey in exempt:
                 rep.add(rid, key, True, "exempt (this one site): " + exempt[ekey], loc, nontrivial=False)
                 continue
-            ok, why = fr.fresh(root, fn, mi, ci)
-            if not ok and isinstance(root, ast.Name) and root.id in func_params(fn):
-                # an accumulator parameter is fine when every caller hands in a fresh value it owns
-                ok2, why2 = _param_fresh_at_callers(fr, fid, root.id)
+            ok, why = fr.owned_path(base, [], Frame(fn, mi, ci))
+            if not ok and isinstance(root, ast.Name) and root.id in func_params(fn) and not reaching_defs(fn, root.id, root)[1]:
+                # an accumulator parameter is fine when every caller hands in a value it owns (down to the part modified)
+                ok2, why2 = _param_fresh_at_callers(fr, fid, root.id, _path_steps(base))
                 if ok2:
                     ok, why = True, why2
                 else:
@@ -416,15 +784,17 @@ def rule_mutate_only_fresh(ctx, rep: Report, rid: str, package: str, exempt: Dic
                     rep.add(rid, key, True, "back-link to the owner", loc, nontrivial=False)
                     continue
                 owner = _owner_param(g, root, gparams)
+                gframe = Frame(g, mi, ci, outer=Frame(fn, mi, ci))
                 if owner is None:
-                    ok, why = fr.fresh(root, g, mi, ci)
-                    if not ok and root.id not in gparams and root.id not in local_assignments(g):
-                        # a variable of the enclosing function
-                        ok, why = fr.fresh(ast.copy_location(ast.Name(id=root.id, ctx=ast.Load()), g), fn, mi, ci)
+                    ok, why = fr.owned_path(base, [], gframe)
                     rep.add(rid, key, ok, f"in-place modification ({how}) of {unparse(base)[:40]}, which is shared ({why})"
                             if not ok else why, loc)
                     continue
                 bad = []
+                # what of the argument is modified: the named part when the helper touches its parameter directly and
+                # does not recurse, otherwise anything below it (loop variables over its parts, recursion into them)
+                recursive = any(any(x is c for x in ast.walk(g)) for c in calls_g)
+                need = _path_steps(base) if (root.id == owner and not recursive) else [DEEP]
                 for c in calls_g:
                     inside = enclosing(c, ast.FunctionDef) is g or any(x is c for x in ast.walk(g))
                     idx = func_params(g).index(owner)
@@ -434,11 +804,11 @@ def rule_mutate_only_fresh(ctx, rep: Report, rid: str, package: str, exempt: Dic
                     aroot = _root(arg)
                     if inside:
                         if not (isinstance(aroot, ast.Name) and _owner_param(g, aroot, gparams) is not None):
-                            ok2, why2 = fr.fresh(aroot, g, mi, ci)
+                            ok2, why2 = fr.owned_path(arg, need, gframe)
                             if not ok2:
                                 bad.append(f"recursive call passes {unparse(arg)[:30]} ({why2})")
                     else:
-                        ok2, why2 = fr.fresh(aroot, fn, mi, ci)
+                        ok2, why2 = fr.owned_path(arg, need, Frame(fn, mi, ci))
                         if not ok2:
                             bad.append(f"{fid.qual} passes {unparse(arg)[:30]} ({why2})")
                 rep.add(rid, key, bool(calls_g) and not bad,
@@ -469,7 +839,20 @@ def _owner_param(g, root: ast.Name, gparams) -> Optional[str]:
     return None
 
 
-def _param_fresh_at_callers(fr: Fresh, fid: FuncId, pname: str) -> Tuple[bool, str]:
+def _path_steps(base: ast.AST) -> list:
+    """The attribute / element steps from the root name of `base` down to the object it denotes."""
+    out = []
+    e = base
+    while isinstance(e, (ast.Attribute, ast.Subscript)):
+        if isinstance(e, ast.Attribute):
+            out.insert(0, ("attr", e.attr))
+        elif not isinstance(e.slice, ast.Slice):
+            out.insert(0, ELEM)
+        e = e.value
+    return out if isinstance(e, ast.Name) else [DEEP]
+
+
+def _param_fresh_at_callers(fr: Fresh, fid: FuncId, pname: str, steps=()) -> Tuple[bool, str]:
     from .prog import bind_call
     eff = fr.eff
     mi, fn, ci = eff.funcs[fid]
@@ -498,11 +881,11 @@ def _param_fresh_at_callers(fr: Fresh, fid: FuncId, pname: str) -> Tuple[bool, s
             # function itself binds to the name is fresh (the other callers are judged below / above)
             rebinds = [st.value for st in walk_no_nested(fn) if isinstance(st, ast.Assign) and len(st.targets) == 1
                        and isinstance(st.targets[0], ast.Name) and st.targets[0].id == pname]
-            bad = [w for okv, w in (fr.fresh(v, fn, mi, ci) for v in rebinds) if not okv]
+            bad = [w for okv, w in (fr.owned_path(v, list(steps), Frame(fn, mi, ci)) for v in rebinds) if not okv]
             if bad:
                 return False, f"{fid.qual} rebinds {pname} to a shared value ({bad[0]}) and passes it on to itself"
             continue
-        ok, why = fr.fresh(b[pname], cfn, cmi, cci)
+        ok, why = fr.owned_path(b[pname], list(steps), Frame(cfn, cmi, cci))
         if not ok:
             return False, f"caller {cf.qual} passes a shared value for {pname} ({why})"
     return True, f"every caller passes a value it created for {pname}"
